@@ -148,7 +148,7 @@ def alloc_observe(r):
     elif r['mode'] == 'alloc_helper':
         cmd = [b, 'helper', str(r['limit']), str(r['used']), str(r['peak']), r['which'], str(r['new_limit'])]
     else:
-        cmd = [b, 'stress', r['op1'], r['op2'], str(r.get('iters', 300000))]
+        cmd = [b, 'stress', r['op1'], r['op2'], str(r.get('iters', 300000))] + ([str(r['limit'])] if 'limit' in r else [])
     try:
         p = subprocess.run(cmd, stdout=subprocess.PIPE, stderr=subprocess.PIPE, timeout=120)
         out = p.stdout.decode().strip().splitlines()
